@@ -17,6 +17,8 @@ STREAMS = ['Proofs/SinksP.v', 'Proofs/StreamsP.v']
 
 TYPED_M = CODEC + ['Proofs/CompareP.v', 'Proofs/MarshalP.v']
 
+TYPED_U = TYPED_M + ['Proofs/UnmarshalP.v']
+
 PROPS = {
     'C02': dict(
         families=['codec'], reports=['codec_enc', 'codec_dec'], consts=True,
@@ -114,5 +116,37 @@ PROPS = {
         level='proof',
         assumptions=['PARTIAL: the theorems are about the interleaving model of the pool protocol; data races are a property of the Go memory model and of every memory access in the package, which no Gallina model exhibits: that half is sampled by stress runs under the race detector (G in 2..64, varied GOMAXPROCS, pools exhausted through the verif hooks), and the model\'s atomic-step assumption (Get .. defer Put, buffer not escaping) is checked syntactically on the source on every run',
                      'sync.Map, sync.Pool and sync/atomic are trusted'],
+    ),
+    'C20': dict(
+        families=['json'], reports=['json'],
+        proof_files=['Proofs/JsonP.v'],
+        theorems='c20_mirror, c20_mirror_map, c20_several_documents, c20_truncated, c20_truncated_document, c20_mirror_wf, c20_literal_int_range, c20_literal_uint_range, c20_literal_not_int',
+        assumptions=['encoding/json\'s tokenizer (Decoder.Token with UseNumber) is a contract: json_tokens',
+                     'agreement of the unmarshalled value with encoding/json.Unmarshal is decided per generated document against the real encoding/json (Go oracle) and against the unmarshal model (Coq); only the integer-range part is a theorem',
+                     'strconv.ParseFloat is a parameter (table of the literals of each case)',
+                     'targets: bool, integer and float widths, string, slices, structs with exact-name fields, pointers (maps, []byte, arrays of other lengths and `any` numeric positions are outside the property)'],
+    ),
+    'C01': dict(
+        families=['typed'], reports=['marshal', 'unmarshal'], consts=True,
+        proof_files=TYPED_U,
+        theorems='c01_marshal_total, c01_roundtrip_tokens_partial, c01_roundtrip_tokens_fuel, c01_roundtrip_exact (+ c01_registered_pointer_refuted, c01_registered_time_refuted); the byte route composes with c02_decode_encode',
+        assumptions=['PARTIAL as a theorem: round trip proved for the universe without maps / interfaces / tuple funcs (simple_ty) and for registered types whose underlying type is not a pointer or time.Time (reg_ok); maps, interfaces and tuple funcs are decided by the correspondence (marshal and unmarshal models evaluated in Coq on every generated case) and the Go round-trip oracle, through tokens and through the byte codec with every writer/reader flavour',
+                     'known finding: a non-nil pointer to a nil pointer (no_ptr_to_nil in the theorem)',
+                     'a nil tuple func with results is outside the quantifier (nil positions listed there: pointer/slice/map/interface)',
+                     'time.Time is modelled as an opaque value bridged through its MarshalBinary image'],
+    ),
+    'C05': dict(
+        families=['typed'], reports=['unmarshal'], consts=True,
+        proof_files=TYPED_U,
+        theorems='c05_total, c05_total_exists, c05_fuel_monotone, c05_consumes_prefix, c05_nil_leaves_untouched, c05_end_token_rejected, c05_empty_is_eof, c05_scalar_exact_kind, c05_mismatch_reported, c05_unknown_field_skipped, c05_skip_any_value',
+        assumptions=['the model `unm` is the reference interpretation: acceptance, resulting value and error class of the implementation are compared with it on every generated (stream, target) pair; that the IMPLEMENTATION never panics is an observable of that comparison, not a theorem',
+                     'struct types with embedded (anonymous) fields are not in the unmarshal model (field promotion) and are excluded from the generated targets'],
+    ),
+    'C16': dict(
+        families=['typed'], reports=['marshal', 'unmarshal'],
+        proof_files=TYPED_U,
+        theorems='c16_by_name, c16_by_name_fuel, c16_strict_unknown_rejected, c16_strict_deprecated_skipped, c16_unknown_skipped, c16_skip_is_structural (+ c16_merge_edge)',
+        assumptions=['by-name theorem: common fields from the round-trip universe (simple_ty) with identical types and zero initial content; other field types are decided by the correspondence',
+                     'skip-empty (exactly the zero-valued fields and empty slices are omitted; the stream round-trips) is decided by the correspondence (marshal model with skip_empty) and Go oracles; is_zero mirrors reflect.Value.IsZero'],
     ),
 }
